@@ -1669,6 +1669,9 @@ fn gen_name(ch: &mut Ch, prefix: &str, n: usize) -> String {
         1 => format!("{}_{}_é", prefix, n),
         2 => format!("{}.{}.long_name_with_many_characters_{}", prefix, n, "x".repeat(ch.below(40))),
         3 => format!("{} {}", prefix, n),
+        // the same name on several entities of a kind is legal
+        // (debug names only: import names stay unique where the profile needs that)
+        4 if prefix != "imp" => format!("{}_dup", prefix),
         _ => format!("{}{}", prefix, n),
     }
 }
